@@ -33,7 +33,7 @@ const rMaxLocks = 64
 
 type rthread struct {
 	goid   int64
-	state  int32 // 0 running, 1 at point, 2 done
+	state  int32 // 0 running, 1 at point, 2 done, 3 blocked natively (channel)
 	kind   vhook.Kind
 	obj    uintptr
 	path   string
@@ -206,11 +206,84 @@ func (s *RSched) quiescent() (allParkedOrDone bool, pending int) {
 		switch s.threads[i].state {
 		case 0:
 			allParkedOrDone = false
-		case 1:
+		case 1, 3:
 			pending++
 		}
 	}
 	return
+}
+
+// goroutineStatuses parses runtime.Stack(all) into goroutine id -> status.
+func goroutineStatuses() map[int64]string {
+	buf := make([]byte, 1<<18)
+	n := runtime.Stack(buf, true)
+	out := map[int64]string{}
+	for _, blk := range strings.Split(string(buf[:n]), "\n\n") {
+		if !strings.HasPrefix(blk, "goroutine ") {
+			continue
+		}
+		rest := blk[len("goroutine "):]
+		sp := strings.IndexByte(rest, ' ')
+		lb := strings.IndexByte(rest, '[')
+		rb := strings.IndexByte(rest, ']')
+		if sp < 0 || lb < 0 || rb < lb {
+			continue
+		}
+		var id int64
+		fmt.Sscanf(rest[:sp], "%d", &id)
+		out[id] = rest[lb+1 : rb]
+	}
+	return out
+}
+
+func blockedStatus(st string) bool {
+	return strings.HasPrefix(st, "chan receive") || strings.HasPrefix(st, "chan send") || strings.HasPrefix(st, "select") || strings.HasPrefix(st, "sync.WaitGroup") || strings.HasPrefix(st, "semacquire")
+}
+
+// settleNative classifies threads that neither park nor finish: a goroutine
+// whose runtime status is a channel wait is blocked natively (state 3); a
+// state-3 thread that has been woken is waited for until it parks again.
+// It returns false while some thread is still in flight.
+//
+//go:norace
+func (s *RSched) settleNative() bool {
+	need := false
+	for i := 0; i < s.nthreads; i++ {
+		if s.threads[i].state == 0 || s.threads[i].state == 3 {
+			need = true
+		}
+	}
+	if !need {
+		return true
+	}
+	sts := goroutineStatuses()
+	settled := true
+	for i := 0; i < s.nthreads; i++ {
+		t := &s.threads[i]
+		if t.state != 0 && t.state != 3 {
+			continue
+		}
+		if blockedStatus(sts[t.goid]) {
+			t.state = 3
+		} else {
+			// running or runnable: in flight towards its next point
+			if t.state == 3 {
+				t.state = 0
+			}
+			settled = false
+		}
+	}
+	return settled
+}
+
+//go:norace
+func (s *RSched) hasNative() bool {
+	for i := 0; i < s.nthreads; i++ {
+		if s.threads[i].state == 3 {
+			return true
+		}
+	}
+	return false
 }
 
 //go:norace
@@ -251,14 +324,21 @@ func (s *RSched) run(choose chooser) {
 	s.current = -1
 	deadline := time.Now().Add(20 * time.Second)
 	for {
+		spins := 0
 		for {
 			ok, _ := s.quiescent()
-			if ok {
+			if ok && (s.hasNative() == false || s.settleNative()) {
 				break
 			}
 			runtime.Gosched()
+			spins++
+			if !ok && spins%200 == 0 && s.settleNative() {
+				if ok2, _ := s.quiescent(); ok2 {
+					break
+				}
+			}
 			if time.Now().After(deadline) {
-				s.aborted = "thread blocked natively (engine R cannot schedule it)"
+				s.aborted = "a thread neither parks nor blocks (engine R cannot schedule it)"
 				return
 			}
 		}
@@ -267,6 +347,9 @@ func (s *RSched) run(choose chooser) {
 			_, pending := s.quiescent()
 			if pending > 0 {
 				s.aborted = "deadlock"
+				if s.hasNative() {
+					s.aborted = "blocked-native"
+				}
 			}
 			return
 		}
@@ -325,6 +408,9 @@ func execRace(t *testing.T, sc *ConcScenario, choose chooser) *execResult {
 	keys, _ := universe(sc.Cfg)
 	opts := []store.Option{store.IndexBitSize(sc.Cfg.Bits), store.IndexFileSize(sc.Cfg.IdxFS), store.PrimaryFileSize(sc.Cfg.PriFS),
 		store.GCInterval(1000 * time.Hour), store.GCTimeLimit(0), store.SyncInterval(1000 * time.Hour)}
+	if b, ok := sc.Extra["burst"].(int); ok {
+		opts = append(opts, store.BurstRate(uint64(b)))
+	}
 	st, err := store.OpenStore(context.Background(), sc.Cfg.primaryType(), filepath.Join(dir, "data"), filepath.Join(dir, "index"), sc.Cfg.Immutable, opts...)
 	if err != nil {
 		res.viol = viol("open-error", "open: %v", err)
@@ -368,6 +454,9 @@ func execRace(t *testing.T, sc *ConcScenario, choose chooser) *execResult {
 	for _, op := range sc.Init {
 		call(op)
 	}
+	if r, ok := sc.Extra["flushRate"].(float64); ok {
+		st.VerifSetFlushRate(r)
+	}
 	s := &RSched{}
 	// The final join is real synchronisation (as a caller would use before
 	// Close): it orders everything the threads did before what follows.
@@ -387,6 +476,16 @@ func execRace(t *testing.T, sc *ConcScenario, choose chooser) *execResult {
 	res.aborted = s.aborted
 	res.conflicts = 1
 	res.outcome = "race-pass"
+	if s.aborted == "blocked-native" {
+		// a writer still waits for a flush notice: give it one (hooks are
+		// uninstalled now, so this runs freely) and join
+		for i := 0; i < 5; i++ {
+			st.Primary().Put(keys[len(keys)-1].Raw, []byte("wake"))
+			st.Flush()
+			time.Sleep(5 * time.Millisecond)
+		}
+		s.aborted = ""
+	}
 	if s.aborted != "" {
 		s.releaseAll()
 		if strings.HasPrefix(s.aborted, "replay-divergence") {
@@ -418,7 +517,8 @@ func c16Scenarios(tier string) []*ConcScenario {
 		ths  [][]Op
 	}
 	progs := []prog{
-		{"put-put-flush", base, []Op{P(0, 1)}, [][]Op{{P(0, 2)}, {P(1, 2)}, {opF}}},
+		{"put-put-flush", base, []Op{P(0, 1), P(1, 1)}, [][]Op{{P(0, 2)}, {P(1, 2)}, {opF}}},
+		{"put-newkey-flush", base, []Op{P(0, 1)}, [][]Op{{P(0, 2)}, {P(1, 2), P(4, 1)}, {opF}}},
 		{"put-get-flush", base, []Op{P(0, 1), opF}, [][]Op{{P(0, 2), G(0)}, {G(0), H(1)}, {opF}}},
 		{"remove-put-flush", base, []Op{P(0, 1), P(1, 1)}, [][]Op{{R(0)}, {P(4, 2), opF}, {Z(1)}}},
 		{"indexgc-vs-callers", tiny, G1, [][]Op{{{Kind: OpIdxGC, B: true}}, {G(4), P(4, 3)}, {opF}}},
@@ -426,6 +526,8 @@ func c16Scenarios(tier string) []*ConcScenario {
 		{"sizes-vs-flush", tiny, G1, [][]Op{{sizeOps}, {P(0, 3), opF}, {{Kind: OpPriGC, A: 85}}}},
 		{"iterate-vs-put", base, []Op{P(0, 1), P(4, 1), opF}, [][]Op{{{Kind: OpIterate}}, {P(1, 2), P(0, 3)}}},
 	}
+	bp := prog{"backpressure-put-vs-flush", base, nil, [][]Op{{P(0, 1)}, {opF}, {P(4, 1)}}}
+	progs = append(progs, bp)
 	bound := 1
 	if tier != "quick" {
 		bound = 2
@@ -437,6 +539,9 @@ func c16Scenarios(tier string) []*ConcScenario {
 	var scs []*ConcScenario
 	for _, p := range progs {
 		sc := &ConcScenario{Prop: "C16", Cfg: p.cfg, Init: p.init, Threads: p.ths, Bound: bound, Exec: execRace, NoBubble: true}
+		if strings.HasPrefix(p.name, "backpressure") {
+			sc.Extra = map[string]any{"burst": 1, "flushRate": 1.0}
+		}
 		sc.Name = "c16/" + p.name
 		sc.Desc = fmt.Sprintf("-race build, real file system; init [%s]; %s", opsString(p.init), progString(p.ths))
 		scs = append(scs, sc)
